@@ -6,6 +6,8 @@ CONSTANTS
   Gen = TRUE
   StripProps = {"hash_c1", "hash_c2"}
   Weak = {}
+  GuidBytes = {}
+  Vias = {"disc", "api"}
 VIEW View
 INVARIANT Inv_NoViolation
 INVARIANT Inv_SecretsAgree
